@@ -209,6 +209,10 @@ func c10(run *ev.Run, tier string) {
 			if i%3 == 0 {
 				// names that already look like a file name, short of the full suffix
 				s.APK.Sig.KeyName = []string{"verif-key-" + rk.name, "ci-signing.pub", "key.rsa", "verif-key.pub." + rk.name}[(i/3)%4]
+				if (i/3)%2 == 1 {
+					// the key name is configured: the maintainer's mail address is not needed
+					s.Maintainer = "ACME Build Team"
+				}
 			}
 		} else {
 			pk = pgpKeys[(i/len(methods))%len(pgpKeys)]
@@ -241,7 +245,7 @@ func c10(run *ev.Run, tier string) {
 			keyName = "callback"
 		}
 		apkMail := "verif@example.com"
-		if m.f == "apk" && i%2 == 1 {
+		if m.f == "apk" && i%2 == 1 && s.APK.Sig.KeyName == "" {
 			apkMail = "Release.Team@ACME-Software.example"
 			s.Maintainer = "ACME Release Team <" + apkMail + ">"
 		}
@@ -752,6 +756,7 @@ func c10(run *ev.Run, tier string) {
 	c10SourceDateEpoch(run, base, kr, &verified, haveGpgv, gpgVerify)
 	c10EmptyKeyID(run, base, kr, &verified)
 	c10Keyrings(run, base, &verified)
+	c10CallbackAndKeyFile(run, base, kr, &verified)
 	c10UnneededPassphrase(run, base, kr, &verified)
 	run.Set("signatures_verified", verified)
 	run.Set("callback_byte_streams_compared", cbBytes)
@@ -1303,6 +1308,120 @@ func c10UnneededPassphrase(run *ev.Run, base func() *gen.Spec, kr openpgp.Entity
 			} else {
 				atomic.AddInt64(verified, 1)
 			}
+		}
+	}
+}
+
+// c10CallbackAndKeyFile: settings that carry both a key file (from the YAML
+// document) and a signing callback (set by the library caller): the callback
+// signs, as the SignFn documentation says, in every format.
+func c10CallbackAndKeyFile(run *ev.Run, base func() *gen.Spec, kr openpgp.EntityList, verified *int64) {
+	dir := newWorkDir("c10both")
+	defer removeWorkDir(dir)
+	fileKey, err := openpgp.NewEntity("Key File", "", "keyfile@example.com", &packet.Config{RSABits: 2048, DefaultHash: crypto.SHA256})
+	if err != nil {
+		run.Inconclusive(err.Error())
+		return
+	}
+	keyPath := filepath.Join(dir, "file-key.asc")
+	if err := writeArmoredPrivateKey(keyPath, fileKey); err != nil {
+		run.Inconclusive(err.Error())
+		return
+	}
+	cbEnt, err := unprotectedEntity()
+	if err != nil {
+		run.Inconclusive(err.Error())
+		return
+	}
+	rsaPriv, err1 := loadRSAPriv(testKey("rsa_unprotected.priv"))
+	rsaPub, err2 := loadRSAPub(testKey("rsa_unprotected.pub"))
+	if err1 != nil || err2 != nil {
+		run.Inconclusive(fmt.Sprint(err1, err2))
+		return
+	}
+	for _, m := range []string{"deb", "deb-dpkg-sig", "rpm", "apk"} {
+		format := strings.SplitN(m, "-", 2)[0]
+		s := base()
+		s.Deb.Sig.KeyFile, s.RPM.Sig.KeyFile = keyPath, keyPath
+		s.APK.Sig.KeyFile, s.APK.Sig.KeyName = testKey("rsa.priv"), "verif" // protected, no passphrase given: unusable on its own
+		if m == "deb-dpkg-sig" {
+			s.Deb.Sig.Method = "dpkg-sig"
+		}
+		cfg, err := parseYAML(s.YAML(), nil)
+		if err != nil {
+			run.Inconclusive(err.Error())
+			continue
+		}
+		info, _ := infoFor(&cfg, format)
+		calls := 0
+		switch m {
+		case "deb":
+			info.Deb.Signature.SignFn = func(r io.Reader) ([]byte, error) {
+				calls++
+				b, _ := io.ReadAll(r)
+				var out bytes.Buffer
+				err := openpgp.ArmoredDetachSign(&out, cbEnt, bytes.NewReader(b), &packet.Config{DefaultHash: crypto.SHA256})
+				return out.Bytes(), err
+			}
+		case "deb-dpkg-sig":
+			info.Deb.Signature.SignFn = func(r io.Reader) ([]byte, error) {
+				calls++
+				b, _ := io.ReadAll(r)
+				var out bytes.Buffer
+				w, err := clearsign.Encode(&out, cbEnt.PrivateKey, &packet.Config{DefaultHash: crypto.SHA256})
+				if err != nil {
+					return nil, err
+				}
+				_, _ = w.Write(b)
+				_ = w.Close()
+				return rearmorWithCRC(out.Bytes()), nil
+			}
+		case "rpm":
+			info.RPM.Signature.SignFn = func(r io.Reader) ([]byte, error) {
+				calls++
+				b, _ := io.ReadAll(r)
+				var out bytes.Buffer
+				err := openpgp.DetachSign(&out, cbEnt, bytes.NewReader(b), &packet.Config{DefaultHash: crypto.SHA256})
+				return out.Bytes(), err
+			}
+		case "apk":
+			info.APK.Signature.SignFn = func(r io.Reader) ([]byte, error) {
+				calls++
+				b, _ := io.ReadAll(r)
+				return rsa.SignPKCS1v15(nil, rsaPriv, crypto.SHA1, b)
+			}
+		}
+		res := packageInfo(format, info)
+		run.Case("callback-and-key-file|"+m, true)
+		if res.Err != nil || res.Panic != "" {
+			run.Violate("C10/"+format+"/signed-build-error/callback-and-key-file", map[string]any{"method": m, "callback_calls": calls, "error": fmt.Sprint(res.Err, ev.Short(res.Panic, 200))})
+			continue
+		}
+		p := dec.Decode(format, res.Bytes, false)
+		var verr error
+		switch m {
+		case "deb":
+			_, verr = openpgp.CheckArmoredDetachedSignature(kr, bytes.NewReader(debMessage(p)), bytes.NewReader(p.SigMember.Data), nil)
+		case "deb-dpkg-sig":
+			if blk, _ := clearsign.Decode(p.SigMember.Data); blk == nil {
+				verr = errors.New("not clear-signed")
+			} else {
+				_, verr = blk.VerifySignature(kr, nil)
+			}
+		case "rpm":
+			_, verr = openpgp.CheckDetachedSignature(kr, bytes.NewReader(p.Rpm.Hdr.Blob), bytes.NewReader(p.Rpm.Sig.Tags[dec.RpmSigRSA].Bin), nil)
+		case "apk":
+			if len(p.GzMembers) < 2 || p.SigTar == nil || len(p.SigTar.Entries) == 0 {
+				verr = errors.New("no signature segment")
+			} else {
+				h := sha1.Sum(p.GzMembers[1].Raw)
+				verr = rsa.VerifyPKCS1v15(rsaPub, crypto.SHA1, h[:], p.SigTar.Entries[0].Data)
+			}
+		}
+		if calls == 0 || verr != nil {
+			run.Violate("C10/"+format+"/callback-not-used-when-a-key-file-is-configured-too", map[string]any{"method": m, "callback_calls": calls, "verifies_with_callback_key": verr == nil, "error": fmt.Sprint(verr)})
+		} else {
+			atomic.AddInt64(verified, 1)
 		}
 	}
 }
